@@ -1,6 +1,7 @@
 package require
 
 import (
+	"encoding/json"
 	"errors"
 	"io"
 	"io/fs"
@@ -10,7 +11,6 @@ import (
 	"runtime"
 	"sync"
 	"syscall"
-	"text/template"
 
 	js "github.com/dop251/goja"
 	"github.com/dop251/goja/parser"
@@ -191,7 +191,12 @@ func (r *Registry) getCompiledSource(p string) (*js.Program, error) {
 		s := string(buf)
 
 		if filepath.Ext(p) == ".json" {
-			s = "module.exports = JSON.parse('" + template.JSEscapeString(s) + "')"
+			// a JSON string literal is also a JavaScript string literal denoting the same string
+			lit, err := json.Marshal(s)
+			if err != nil {
+				return nil, err
+			}
+			s = "module.exports = JSON.parse(" + string(lit) + ")"
 		}
 
 		source := "(function(exports,require,module,__filename,__dirname){" + s + "\n})"
